@@ -116,3 +116,4 @@ open Csproto
 #print axioms Csproto.Bridge.EncoderFuncs.EncodeFixed64_ok
 #print axioms Csproto.Bridge.EncoderFuncs.EncodeFixed32_refines
 #print axioms Csproto.Bridge.EncoderFuncs.EncodeFixed64_refines
+#print axioms Csproto.C01.Source.source_roundtrip_fixed32
